@@ -1,8 +1,11 @@
 package c12
 
 import (
+	"bytes"
 	"context"
 	"fmt"
+	"net/http"
+	"net/http/httptest"
 	"strings"
 	"time"
 
@@ -181,3 +184,26 @@ func opFzParse(selHex, docHex string) (string, string) {
 }
 
 var _ = doubles.NewLogger
+
+// opFzFetch: dataFetch against a local server that streams `mib` MiB. Oracle: a small document
+// arrives whole, and the node never holds more than 32 MiB of a document in memory.
+func opFzFetch(mibs string) (string, string) {
+	mib := atoi(mibs)
+	chunk := bytes.Repeat([]byte("[1,2,3,4,5,6,7],"), 1<<12) // 64 KiB
+	srv := httptest.NewServer(http.HandlerFunc(func(w http.ResponseWriter, r *http.Request) {
+		for i := 0; i < mib*16; i++ {
+			if _, err := w.Write(chunk); err != nil {
+				return
+			}
+		}
+	}))
+	defer srv.Close()
+	body, err := dosnode.VerifDataFetch(srv.URL)
+	switch {
+	case len(body) > 32<<20:
+		return "nopanic", fmt.Sprintf("oversize-document-read: dataFetch read %d MiB of a %d MiB document into memory (err=%v)", len(body)>>20, mib, err)
+	case mib <= 8 && (err != nil || len(body) != mib<<20):
+		return "nopanic", fmt.Sprintf("not-serving-fzfetch: a %d MiB document was not fetched: %d bytes, err=%v", mib, len(body), err)
+	}
+	return "nopanic", ""
+}
